@@ -91,12 +91,16 @@ func (h *peChecksum) Write(d []byte) (int, error) {
 		copy(d2, d)
 		d = d2
 	}
-	ckpos := -1
-	if h.cksumPos > n {
-		h.cksumPos -= n
-	} else if h.cksumPos >= 0 {
-		ckpos = h.cksumPos
-		h.cksumPos = -1
+	// offset of the checksum field relative to this write; it may begin in a
+	// later write (>= n) or have begun in the previous one (-2)
+	ckpos := h.cksumPos
+	if h.cksumPos != -1 {
+		if h.cksumPos+4 <= n {
+			// all of the field has been seen
+			h.cksumPos = -1
+		} else {
+			h.cksumPos -= n
+		}
 	}
 	sum := h.sum
 	for i := 0; i < n; i += 2 {
